@@ -5,7 +5,7 @@ import ast
 from typing import Any, Dict, List, Optional
 
 from . import terms as T
-from .values import (Columns, DefaultDict, ClassRef, Each, EnumRef, ExtMod, Frame, FuncRef, GenCall, GroupBy, GuardedSeq, Obj, PyTuple, Ser, to_term)
+from .values import (Columns, DefaultDict, ClassRef, Each, EnumRef, ExtMod, Frame, FuncRef, GenCall, GroupBy, GuardedSeq, Obj, PyTuple, ReMatch, Ser, to_term)
 
 _CMP_METH = {"lt": "<", "le": "<=", "gt": ">", "ge": ">=", "eq": "==", "ne": "!="}
 REDUCTIONS = {"sum", "min", "max", "mean", "std", "count", "median", "nunique", "idxmax", "idxmin", "first", "last", "any", "all", "var", "prod", "size"}
@@ -326,6 +326,13 @@ class SeriesOps:
                 return None
             if name in ("insert", "pop", "remove", "clear", "sort", "reverse"):
                 self.log("list-mutation", node, what=name)
+                # a plain Python list of concrete values handled outside any symbolic loop: do what the list does
+                if I.run.loop_depth == 0 and not any(isinstance(x, Each) for x in obj) and all(isinstance(x, (str, int, float, bool)) or x is None for x in obj) \
+                        and all(isinstance(p_, (str, int, float, bool)) for p_ in pos) and not kw and name in ("pop", "insert", "remove", "clear", "reverse"):
+                    try:
+                        return getattr(obj, name)(*pos)
+                    except (IndexError, ValueError):
+                        pass
                 return T.opaque(f"list.{name}")
             if name == "index":
                 return ("call", "list.index", to_term(obj), to_term(pos[0]))
@@ -532,7 +539,20 @@ class SeriesOps:
         if name == "re.compile":
             return ("regex", to_term(a0))
         if name in ("re.match", "re.search", "re.fullmatch"):
+            if len(pos) == 2 and all(isinstance(x, str) for x in pos) and not kw:
+                import re as _re
+                try:
+                    m_ = getattr(_re, short)(pos[0], pos[1])          # pattern and subject are literals: the library's own answer
+                    return None if m_ is None else ReMatch(m_)
+                except _re.error:
+                    pass
             return ("call", name, to_term(pos[0]), to_term(pos[1]))
+        if name == "re.sub" and len(pos) == 3 and all(isinstance(x, str) for x in pos) and not kw:
+            import re as _re
+            try:
+                return _re.sub(pos[0], pos[1], pos[2])
+            except _re.error:
+                pass
         if name.startswith("os.path."):
             if all(isinstance(p, str) for p in pos) and short in ("join", "basename", "dirname"):
                 import os
